@@ -18,6 +18,18 @@ CLAIMED = {
  "C09": ("CrossHair (z3) symbolic execution of the real Validator version filter with a symbolic float version on the real expanded schemas, vs the statement's range filter; acceptance decided by the real jsonschema on the really pruned entry; two-call cache histories vs a fresh Validator",
          "Bounded symbolic execution: is_valid_for_version for symbolic bounds; get_versioned_properties on each real object schema for every version in (3,9) equals the min<=v<=max filter at every depth and in every alternative list; each annotated entry is accepted iff in range; a second call on a used Validator equals a fresh one for every pair of versions from {None,6.0,7.6,8.0}.",
          "Trusted: jsonschema/jsonref, CrossHair/z3 (floats as reals). Histories of length 2; jsonref.load stubbed by a resolved deep copy in the history obligations; quick covers 7 object schemas, thorough all 19.", "§4 C09"),
+ "C07": ("CrossHair (z3) symbolic execution of the real Validator.validate/_get_errors/create_message + jsonschema on documents with symbolic leaves, vs a Draft-04 reference evaluator on the keyword's published sub-schema",
+         "Bounded symbolic execution: for every object type, numeric keywords (symbolic ints / boundary floats), number lists (symbolic length and element), enumerated keywords (spellings, near misses, wrong types), assorted wrong-typed values, unknown / hidden / upper-case / missing-required keywords in Mapfile and plain dicts, lists of roots, and nested documents with faults at symbolic list indices: zero messages iff the reference accepts, every message names the offending keyword or the enclosing object, reported positions are the keyword's / the block opener's, no exception escapes.",
+         "Trusted: jsonschema/referencing, CrossHair/z3. json.dumps/loads inside mappyfile.validator are stubbed by the identity. Quick: one keyword per distinct schema shape; thorough: every keyword. `pattern` only on concrete strings.", "§4 C07"),
+ "C15": ("CrossHair (z3) symbolic execution of the real Parser.load_includes/_get_include_filename/parse with open_file and os.getcwd stubbed, vs a reference textual substitution; expand_includes=False through the template-symbolic pipeline",
+         "Bounded symbolic execution: include-tree shape (which lines are directives, which of 6 relative/absolute names, nesting) symbolic per directive spelling (keyword case, leading blanks, quote style, trailing comment, CRLF: generator-enumerated covering set); chain depth 0..8 and cycles (expands iff <= 5); root directory / cwd / relative-vs-absolute resolution; missing file -> IOError; kept directives with symbolic names printed back unchanged.",
+         "Decided against the stubbed contract of open_file (returns text or raises IOError) and os.getcwd; real files / directories / process cwd are outside (I/O).", "§4 C15"),
+ "C16": ("CrossHair (z3) symbolic execution of the real PrettyPrinter on a document covering every block kind with symbolic leaves, line list vs a layout written from the statement; compute_aligned_max_indent translated from its AST to QF_BV/FP SMT (z3)",
+         "Bounded symbolic execution + SMT lemma: for indent in {0,1,4} (quick) / 0..8 (thorough) x align_values x end_comment x spacer x quote, the complete line list of a document with object blocks, key-value blocks, PROJECTION, POINTS x1/x2, PATTERN, CONFIG, repeated keys and nested object lists equals depth x indent x spacer indentation, END at the opener's depth, `END # TYPE` iff end_comment, values aligned at the first multiple of indent past the longest simple keyword; text == newlinechar.join(lines); alignment arithmetic unsat for key length <= 1023, indent <= 64 with IEEE-754 division.",
+         "Option values are enumerated by the generator, leaves are symbolic. Layout code does not branch on content beyond block kind, so the cover document stands for others (argued, not checked). Multi-line strings and comments excepted.", "§4 C16"),
+ "C20": ("CrossHair (z3) symbolic execution of the real utils front ends and click callbacks with the core workers replaced by recorders; the sys.exit expression of `mappyfile validate` translated from the AST to SMT (z3 Int)",
+         "Bounded symbolic execution + SMT lemma: open/load/loads hand the core the same symbolic text and options; dumps/dump/save hand the printer the same seven options and return/write the same string; `format` == save(open(IN,...), OUT, decoded options); `schema` writes the sorted JSON of get_versioned_schema(version); `validate` echoes one line per message and exits with e(problems) where problems counts messages and unparseable files (<= 3 files, <= 4 messages each), and for every n in [0, 2^40) the status byte of e(n) is 0 iff n == 0 and equals n when n <= 255.",
+         "Recorders stand for Parser.parse / MapfileToDict / PrettyPrinter / codecs.open / click.echo / glob. UTF-8 codec fidelity through real files and the CLI as an OS process are outside (only counterexample replays run the real CLI).", "§4 C20"),
 }
 NA = {}
 
